@@ -86,7 +86,7 @@ func handle(p []string) (res string) {
 		return opJsonDec(p[1:])
 	case "jsonenc":
 		return opJsonEnc(p[1:])
-	case "T", "A":
+	case "T", "A", "Y":
 		return "def"
 	case "marshal":
 		return opMarshal(p[1:])
